@@ -7,7 +7,7 @@
    ActionSpec2.v (PegT: the reference semantics over tables, all heads of the extended fragment; section 6). *)
 From PegtlV Require Import Base Decode Grammar Engine EngineFacts AtomFacts Spec Denote ExactSound ActionSpec ActionFacts ActionExact.
 From Coq Require Import Lia.
-From PegtlV Require Import RaiseSpec ActionSpec2 ActionExact2 ActionRef2.
+From PegtlV Require Import RaiseSpec ActionSpec2 ActionExact2 ActionRef2 ActionCons2 ActionWitness2.
 
 (* ---------- 1. no action while actions are disabled ---------- *)
 (* apply_mode::nothing and no enable<> / enable_action anywhere: not a single apply / apply0 / inline action *)
@@ -270,23 +270,42 @@ Print Assumptions C04_example_survivors.
 
 (* ---------- 6. the central statement beyond the classical fragment ---------- *)
 (* Reference: ActionSpec2.PegT G att vt A fam r input offset verdict — the PEG formalism with semantic actions read
-   off the TABLE as pure syntax (no modes, cursors, events, fuel), verdicts TOk rest offset actions | TFail | TRaise.
+   off the TABLE as pure syntax (no modes, cursors, events, fuel), verdicts TOk rest offset actions | TFail | TRaise,
+   actions = list of (node, apply / apply0, begin byte, end byte) in order of match completion.  Reading of the heads:
+       rep<N,R> = seq<R,...,R>;  rep_opt<N,R> = up to N times, greedy;
+       rep_min_max<m,M,R> = seq< rep<m,R>, rep_opt<M-m,R>, not_at<R> >                       (doc/Rule-Reference.md)
+       until<C> / until<C,R>;  if_then_else<C,T,E>;
+       partial<Rs...> = the maximal successful PREFIX of seq<Rs...>, whose actions SURVIVE;  star_partial = star of that
+       strict<R,Rs...>, star_strict<R,Rs...>;
+       at / not_at / disable: the sub-rule is evaluated with actions OFF;  enable: ON;  action<F,R>: family F below
+       must<R> = sor< R, raise<R> >;  raise<T>;  if_must<D,C,R...> = if_then_else< C, must<R...>, D ? success : failure >
+       try_catch_return_false<R>: a raise of R becomes a local failure when the catch clause catches parse errors
+       every node: its own action AFTER the actions of its body, begin = offset at entry (apply) / begin = end (apply0);
+       a bool action returning false turns the node into a local failure; a raise aborts every enclosing operator.
    Fragment (ActionSpec2.ta_table): every node has one of the heads
-       seq sor star/star_partial plus opt/partial at not_at                       (classical, any number of subs)
-       until<C> until<C,R> rep rep_opt rep_min_max if_then_else strict star_strict
+       seq sor star/star_partial plus opt/partial at not_at                       (any number of sub-rules where the
+       until<C> until<C,R> rep rep_opt rep_min_max if_then_else strict star_strict      C++ class takes a pack)
        disable enable action<F> control<K> must raise if_must try_catch_return_false
        any one not_one range string eof success failure over char
-   with the right number of sub-rules, closed sub-rule ids, and the must<...> part of an if_must being a must node
-   without an action of its own.  Configurations (action_cfg2): void or bool (vetoing) apply / apply0 attached to ANY
-   control-enabled node (named or anonymous), in any action family, verdict a function of family, node and byte
+   with the right number of sub-rules, closed sub-rule ids, and the must<...> part of an if_must being a single must
+   node without an action of its own.  Configurations (action_cfg2): void or bool (vetoing) apply / apply0 attached to
+   ANY control-enabled node (named or anonymous), in any action family, verdict a function of family, node and byte
    span; no throwing action, no match-level action, no raising failure hook.
    Inside the fragment: every apply mode, rewind mode, action family, control family, initial position, fuel, input.
-   Side condition rmm_stable: for the sub-rule R of a rep_min_max node, "R fails with actions on" implies "R fails
-   with actions off".  It is void when the table has no rep_min_max (C04_rmm_stable_no_rep_min_max) and it cannot be
-   dropped: see C04_rep_min_max_doc_equivalence_refuted (the library does NOT implement the documented equivalence
-   rep_min_max<m,M,R> = seq< rep<m,R>, rep_opt<M-m,R>, not_at<R> > when an action of R vetoes).
-   NOT covered (see the comment before section 5): state, rematch, try_catch_raise_nested, inline and match-level
-   actions, throwing actions, raising failure hooks, non-char atoms; if_must only with a single plain must<> part. *)
+   PROVED: C04_survivors_exact_ext (runs ending in success: survivors = THE action list of the reference, exact spans,
+   same consumption), C04_survivors_none_ext (runs ending in failure / exception: the reference fails / raises and no
+   action survives), C04_invocation_exact_ext (every invocation inside a run), C04_reference_ext_deterministic,
+   C04_reference_ext_executable, C04_reference_ext_conservative (PegT = PegA on the classical fragment),
+   C04_reference_ext_off_nil, C04_reference_ext_mode_independent.
+   SIDE CONDITION rmm_stable: for the sub-rule R of a rep_min_max node, "R fails with actions on" implies "R fails with
+   actions off".  It holds when nothing vetoes (C04_rmm_stable_no_veto, hence C04_survivors_exact_ext_no_veto is
+   unconditional), when the table has no rep_min_max (C04_rmm_stable_no_rep_min_max), when R is an atom without action
+   (C04_rmm_stable_atomic_sub).  It cannot be dropped: C04_rep_min_max_doc_equivalence_refuted (the library does NOT
+   implement the documented equivalence of rep_min_max when an action of R vetoes: candidate library defect).
+   NOT covered by an exactness statement (see also the comment before section 5): state, rematch,
+   try_catch_raise_nested, inline and match-level actions, throwing actions, raising failure hooks, non-char atoms;
+   if_must only with a single plain must<> part (must<R1,R2> = seq< must<R1>, must<R2> > is not); for runs ending in an
+   exception only "the reference raises too and nothing survives" is stated (not which rule is blamed: that is C05). *)
 Theorem C04_survivors_exact_ext :
   forall G C vt, action_cfg2 G C vt -> ta_table G (att_of C) -> rmm_stable G (att_of C) vt ->
   forall f d r input p0 c' evs, (r < length G)%nat -> bytes_ok input ->
@@ -332,6 +351,27 @@ Theorem C04_rmm_stable_atomic_sub :
 Proof. exact rmm_stable_atoms. Qed.
 Print Assumptions C04_rmm_stable_atomic_sub.
 
+(* without a vetoing action (void actions, or bool actions that never return false) the side condition holds, and more
+   generally the verdict, rest and offset of the reference do not depend on the apply mode (the action lists do) *)
+Theorem C04_rmm_stable_no_veto :
+  forall G att vt, (forall fam r b e, vt fam r b e = false) -> rmm_stable G att vt.
+Proof. exact rmm_stable_no_veto. Qed.
+Print Assumptions C04_rmm_stable_no_veto.
+Theorem C04_reference_ext_mode_independent :
+  forall G att vt, (forall fam r b e, vt fam r b e = false) ->
+  forall A A' fam r s o x, PegT G att vt A fam r s o x -> exists y, PegT G att vt A' fam r s o y /\ sv x y.
+Proof. exact PegT_mode_indep. Qed.
+Print Assumptions C04_reference_ext_mode_independent.
+(* hence, for configurations whose actions never veto, the central statement holds on the whole fragment, rep_min_max included *)
+Theorem C04_survivors_exact_ext_no_veto :
+  forall G C vt, action_cfg2 G C vt -> ta_table G (att_of C) -> (forall fam r b e, vt fam r b e = false) ->
+  forall f d r input p0 c' evs, (r < length G)%nat -> bytes_ok input ->
+    run G C f d r input p0 = Res Ok c' evs ->
+    exists l, PegT G (att_of C) vt (dA d) (dAct d) r input (pbyte p0) (TOk (rest c') (pbyte (cpos c')) l) /\
+              map sact_bytes (survivors evs) = l.
+Proof. intros G C vt Hc Hta Hnv. exact (survivors_exact2 G C vt Hc Hta (rmm_stable_no_veto G (att_of C) vt Hnv)). Qed.
+Print Assumptions C04_survivors_exact_ext_no_veto.
+
 (* the extended reference derivation is unique ("THE derivation"), and the executable reference interpreter computes it *)
 Theorem C04_reference_ext_deterministic :
   forall G att vt A fam r s o x y, PegT G att vt A fam r s o x -> PegT G att vt A fam r s o y -> x = y.
@@ -342,6 +382,36 @@ Theorem C04_reference_ext_executable :
 Proof. exact pegt_sound. Qed.
 Print Assumptions C04_reference_ext_executable.
 
+(* in the reference, a rule evaluated with actions off (look-ahead at / not_at, disable<> sections, the final not_at of
+   rep_min_max, runs started with apply_mode::nothing) carries no action at all, unless an enable<> lies below;
+   with C04_survivors_exact_ext: such sections contribute nothing to the survivors (cf. theorems 1 of this file) *)
+Theorem C04_reference_ext_off_nil :
+  forall G att vt, (forall r nd, nth_error G r = Some nd -> nhead nd <> HEnable) ->
+  forall fam r s o s' o' l, PegT G att vt false fam r s o (TOk s' o' l) -> l = [].
+Proof. exact PegT_off_nil. Qed.
+Print Assumptions C04_reference_ext_off_nil.
+
+(* CONSERVATIVITY over the classical reference of section 5: on a table that denotes a surface grammar (adenb /
+   action_tie), with the table-level attachment agreeing with the surface-level one (att_agree: the node of named
+   rule k carries the action and the veto predicate of rule k, anonymous nodes carry none), every PegA derivation of
+   a surface expression IS a PegT derivation of every node that denotes it: same verdict, rest, offset, and the same
+   action list with rule numbers relabelled by their nodes.  With C04_reference_deterministic /
+   C04_reference_ext_deterministic the two references define the same function on the classical fragment. *)
+Theorem C04_reference_ext_conservative :
+  forall G g names att vt attT vtT fam, att_agree G g names att vt attT vtT fam ->
+  (forall k e, nth_error g k = Some e -> not_ref e = true /\
+      exists n nd, nth_error G (nm_of G names k) = Some nd /\ den_node (adenb G g names n) nd e = true) ->
+  forall A e s o x, PegA g att vt A e s o x ->
+  forall n r, adenb G g names n r e = true -> PegT G attT vtT A fam r s o (liftT G names x).
+Proof. exact reference_conservative. Qed.
+Print Assumptions C04_reference_ext_conservative.
+Theorem C04_reference_ext_conservative_tie :
+  forall G g names att vt attT vtT fam n, att_agree G g names att vt attT vtT fam -> action_tie G g names n = true ->
+  forall k, (k < length g)%nat -> forall A s o x, PegA g att vt A (SRef k) s o x ->
+  PegT G attT vtT A fam (nm_of G names k) s o (liftT G names x).
+Proof. exact reference_conservative_tie. Qed.
+Print Assumptions C04_reference_ext_conservative_tie.
+
 (* REFUTED: the side condition rmm_stable cannot be dropped, because the library does not implement the documented
    equivalence  rep_min_max< m, M, R > = seq< rep< m, R >, rep_opt< M - m, R >, not_at< R > >  (doc/Rule-Reference.md) in
    the presence of a vetoing action.  Witness: rep_min_max< 0, 2, one<'a'> >, bool apply on one<'a'> returning false on
@@ -350,31 +420,12 @@ Print Assumptions C04_reference_ext_executable.
    the documented equivalent evaluates not_at< one<'a'> > at byte 1 with actions off, where one<'a'> matches, and FAILS.
    (Confirmed on the real library: parse< rep_min_max<0,2,R>, act > returns true, parse< seq< rep<0,R>, rep_opt<2,R>,
    not_at<R> >, act > returns false.)  By C04_reference_ext_deterministic the reference has no successful derivation. *)
-Definition rf_G : grammar := [ mknode (HRepMinMax 0 2) [1]%nat false; mknode (HOne true PkChar [97%Z]) [] true ].
-Definition rf_vt (f : nat) (r : rid) (b e : N) : bool := N.eqb b 1.
-Definition rf_C : cfg :=
-  mkcfg EolLfCrlf (fun _ r => match r with 1%nat => AKApply true | _ => AKNone end)
-        (fun f r b e => ARet (negb (rf_vt f r (pbyte b) (pbyte e)))) (fun _ _ _ => ARet true) (fun _ => true) (fun _ _ => false).
-Ltac ta_closed := repeat (apply Forall_cons; [cbn; lia|]); apply Forall_nil.
 Theorem C04_rep_min_max_doc_equivalence_refuted :
   action_cfg2 rf_G rf_C rf_vt /\ ta_table rf_G (att_of rf_C) /\
   (exists c' evs, run rf_G rf_C 20 (mkdyn true true 0 0 0) 0%nat [97; 97]%N pos0 = Res Ok c' evs /\ rest c' = [97]%N /\
                   map sact_bytes (survivors evs) = [(1%nat, true, 0%N, 1%N)]) /\
   PegT rf_G (att_of rf_C) rf_vt true 0 0%nat [97; 97]%N 0 TFail.
-Proof.
-  split.
-  { split; [intros f r; destruct r as [|[|r]]; exact I|]. split; [intros; reflexivity|]. split; [intros; reflexivity|].
-    intros f r nd Ha Hn. destruct r as [|[|r]]; [exfalso; apply Ha; reflexivity | simpl in Hn; inversion Hn; reflexivity | exfalso; apply Ha; reflexivity]. }
-  split.
-  { intros r nd H. destruct r as [|[|r]]; simpl in H; [| |destruct r; discriminate H]; inversion H; subst; split; cbn.
-    - ta_closed.
-    - exists 1%nat. reflexivity.
-    - ta_closed.
-    - split; [reflexivity | exists (SOne [97%N]); split; reflexivity]. }
-  split.
-  { eexists. eexists. split; [vm_compute; reflexivity|]. split; [reflexivity | vm_compute; reflexivity]. }
-  apply (pegt_sound rf_G (att_of rf_C) rf_vt 20). vm_compute. reflexivity.
-Qed.
+Proof. exact rmm_doc_equivalence_refuted. Qed.
 Print Assumptions C04_rep_min_max_doc_equivalence_refuted.
 
 (* ---------- examples for section 6 (non-vacuity) ---------- *)
@@ -473,6 +524,7 @@ Proof.
   - do 27 (destruct r as [|r]; [split; [exact I | intros H; first [lia | exfalso; apply H; reflexivity]]|]). split; [exact I | intros H; exfalso; apply H; reflexivity].
   - split; [exact I | intros H; exfalso; apply H; reflexivity].
 Qed.
+Print Assumptions xu_acts_plain.
 Example C04_example_ext_heads :
   action_cfg2 xu_G xu_C (fun _ _ _ _ => false) /\ ta_table xu_G (att_of xu_C) /\ rmm_stable xu_G (att_of xu_C) (fun _ _ _ _ => false) /\
   exists c' evs, run xu_G xu_C 40 (mkdyn true true 0 0 0) 0%nat xu_in pos0 = Res Ok c' evs /\ rest c' = [] /\
@@ -496,3 +548,23 @@ Proof.
   apply (pegt_sound xu_G (att_of xu_C) (fun _ _ _ _ => false) 40). vm_compute. reflexivity.
 Qed.
 Print Assumptions C04_example_ext_heads.
+
+(* conservativity on the table of C04_example_survivors: the derivation computed by the classical interpreter peg_acts
+   is a derivation of the extended reference for node 0, with rule numbers 1, 0 relabelled to nodes 3, 0 *)
+Example C04_example_ext_conservative :
+  att_agree sx_G sx_g sx_names (att sx_G sx_names sx_C 0) sx_vt (att_of sx_C) (fun _ r b e => sx_vtf r b e) 0 /\
+  PegT sx_G (att_of sx_C) (fun _ r b e => sx_vtf r b e) true 0 0%nat [97; 98; 97; 98; 97]%N 0
+    (TOk [97; 98; 97]%N 2 [ (3%nat, true, 0%N, 2%N); (0%nat, true, 0%N, 2%N) ]).
+Proof.
+  assert (Hag : att_agree sx_G sx_g sx_names (att sx_G sx_names sx_C 0) sx_vt (att_of sx_C) (fun _ r b e => sx_vtf r b e) 0).
+  { split; [|split; intros; reflexivity].
+    intros r Ha. unfold anon in Ha. unfold att_of. change (acts sx_C 0 r) with (if existsb (Nat.eqb r) sx_names then AKApply true else AKNone).
+    destruct (existsb (Nat.eqb r) sx_names); [discriminate Ha | reflexivity]. }
+  split; [exact Hag|].
+  assert (HP : PegA sx_g (att sx_G sx_names sx_C 0) sx_vt true (SRef 0) [97; 98; 97; 98; 97]%N 0
+                 (Some ([97; 98; 97]%N, 2%N, [ (1%nat, true, 0%N, 2%N); (0%nat, true, 0%N, 2%N) ]))).
+  { apply (peg_acts_sound sx_g (att sx_G sx_names sx_C 0) sx_vt 30). vm_compute. reflexivity. }
+  assert (Ht : action_tie sx_G sx_g sx_names 6 = true) by (vm_compute; reflexivity).
+  exact (reference_conservative_tie sx_G sx_g sx_names _ _ _ _ 0 6 Hag Ht 0%nat (Nat.lt_0_succ 1) true _ _ _ HP).
+Qed.
+Print Assumptions C04_example_ext_conservative.
